@@ -80,8 +80,7 @@ Lemma transpose_small : forall n rows, Forall (Forall (fun v => v < two64)) rows
 Proof.
   induction n; intros rows H; cbn [transpose_rows]; constructor.
   - apply Forall_forall. intros x Hx. apply in_map_iff in Hx. destruct Hx as [r [<- Hr]].
-    apply f64_to_f32_lt. rewrite Forall_forall in H. specialize (H r Hr).
-    destruct r; cbn [hd]; [reflexivity | inversion H; auto].
+    apply f64_to_f32_lt.
   - apply IHn. apply Forall_forall. intros x Hx. apply in_map_iff in Hx. destruct Hx as [r [<- Hr]].
     rewrite Forall_forall in H. specialize (H r Hr). destruct r; cbn [tl]; [constructor | inversion H; auto].
 Qed.
